@@ -310,11 +310,11 @@ func (na *nilAnalysis) Findings() (findings []NilFinding, examined int) {
 
 func (na *nilAnalysis) keyDesc(k ssa.Value) string {
 	t := na.p.T(k)
-	s := t.str(3)
+	s := []rune(t.str(3))
 	if len(s) > 90 {
-		s = s[:90] + "…"
+		return string(s[:90]) + "…"
 	}
-	return s
+	return string(s)
 }
 
 func (na *nilAnalysis) useDesc(in ssa.Instruction) string {
